@@ -27,7 +27,7 @@ import (
 func init() { register("C15", "fault_enumeration", runC15) }
 
 // server message alphabet
-var c15Alphabet = []string{"SF", "SFn", "SFt", "SFm", "V", "Vk", "Vx", "Vp", "Ve", "E", "J", "235", "535"}
+var c15Alphabet = []string{"SF", "SFn", "SFt", "SFm", "V", "Vk", "Vx", "Vp", "Ve", "Er", "E", "J", "235", "535"}
 
 type c15Case struct {
 	Mech   string   `json:"mech"`
@@ -134,6 +134,8 @@ func c15Handler(c c15Case, tr *c15Trace) refsmtp.AuthHandler {
 				msg = nil
 			case "J":
 				msg = []byte("hello, this is not a SCRAM message")
+			case "Er": // the server-error form of the server-final message (RFC 5802, section 7): never a proof of the server
+				msg = []byte("e=" + []string{"invalid-proof", "other-error", "unknown-user"}[len(c.Script)%3])
 			case "SF":
 				if haveCF {
 					msg = x.ServerFirst()
@@ -304,6 +306,11 @@ func runC15Case(r *ev.Run, c c15Case) (open bool) {
 			if st.Sym == "J" && (st.RespKind == "client-final" || st.RespKind == "ack") {
 				viol("continue-after-junk", fmt.Sprintf("step %d: the client continued the exchange after a junk challenge", i), steps)
 			}
+		case "Er":
+			if st.RespKind == "ack" || st.RespKind == "client-final" {
+				invalidAcked = true
+				viol("ack-server-error-message", fmt.Sprintf("step %d: the client answered the server-error message %q with %s instead of ending the exchange with an error", i, st.Sent, st.RespKind), steps)
+			}
 		case "V", "Vk", "Vx", "Vp", "Ve":
 			if st.RespKind == "ack" {
 				if st.ValidHere {
@@ -347,7 +354,7 @@ func runC15Case(r *ev.Run, c c15Case) (open bool) {
 
 func runC15(r *ev.Run, rep *ev.ReplayDoc) ev.Summary {
 	sum := ev.Summary{
-		Rule: "exhaustive adaptive server message sequences over the alphabet {valid server-first, server-first with foreign / truncated nonce, malformed server-first, valid server-final, server-final of another key, of another exchange, over empty client state, empty challenge, junk, 235, 535} up to length 5 (quick: 4), explored as an execution tree (a branch is extended only while the client is still inside the exchange), for SCRAM-SHA-1, SCRAM-SHA-256 and both -PLUS variants (TLS 1.2 and 1.3), through mail.Client and directly through smtp.Client.Auth. 'valid' symbols are computed from what the client actually sent. non-trivial = script deviates from the honest sequence; distinct by (mechanism, script)",
+		Rule: "exhaustive adaptive server message sequences over the alphabet {valid server-first, server-first with foreign / truncated nonce, malformed server-first, valid server-final, server-final of another key, of another exchange, over empty client state, server-error (e=...), empty challenge, junk, 235, 535} up to length 5 (quick: 4), explored as an execution tree (a branch is extended only while the client is still inside the exchange), for SCRAM-SHA-1, SCRAM-SHA-256 and both -PLUS variants (TLS 1.2 and 1.3), through mail.Client and directly through smtp.Client.Auth. 'valid' symbols are computed from what the client actually sent. non-trivial = script deviates from the honest sequence; distinct by (mechanism, script)",
 		Assumptions: []string{
 			"the honest sequence is: empty challenge -> client-first, server-first, client-final, server-final, empty acknowledgement, 235",
 			"success may only be reported if a valid server-final for the running exchange was acknowledged before the final reply",
